@@ -356,3 +356,175 @@ func TestVerifReplay(t *testing.T) {
 `, strings.ReplaceAll(o.Name, "\n", " "), strings.Join(bs, ", "), drv.setup, strings.Join(sets, "\n\t"), drv.call)
 	return src, true
 }
+
+// ringReplayTest (C20): the layout of the counterexample (head, tail, number of slots) and the
+// integer argument are taken from the model; a generated test builds that ring over ints (live
+// slots hold distinct values, vacated slots zero), runs the real method and compares result and
+// resulting contents with a plain-slice FIFO oracle written in the test.
+func ringReplayTest(env *Env, u *Unit, o *Oblig) (string, bool) {
+	if u == nil || o.Result == "unsat" || !strings.HasPrefix(o.Fn, "RingBuffer.") {
+		return "", false
+	}
+	method := strings.TrimPrefix(strings.SplitN(o.Fn, "[", 2)[0], "RingBuffer.")
+	fn := env.funcs["RingBuffer."+method]
+	if fn == nil || len(fn.Params) == 0 {
+		return "", false
+	}
+	recv := fn.Params[0]
+	rt := derefType(recv.Type())
+	st := structOf(rt)
+	if st == nil {
+		return "", false
+	}
+	r := mkVar("p."+recv.Name(), sortInt)
+	var terms []*Term
+	for i := 0; i < st.NumFields(); i++ {
+		fnm, fso := env.te.fieldHeap(rt, i)
+		v := mkSelect(mkVar(fnm+"@0", fso), r)
+		switch st.Field(i).Name() {
+		case "head", "tail":
+			terms = append(terms, v)
+		case "elements":
+			terms = append(terms, sliceLen(v))
+		}
+	}
+	if len(terms) != 3 {
+		return "", false
+	}
+	arg := int64(0)
+	hasArg := false
+	if len(fn.Params) > 1 {
+		if b, ok := fn.Params[1].Type().Underlying().(*types.Basic); ok && b.Info()&types.IsInteger != 0 {
+			terms = append(terms, mkVar("p."+fn.Params[1].Name(), sortInt))
+			hasArg = true
+		}
+	}
+	vals, ok := getValues(u, o, terms, nil)
+	if !ok {
+		return "", false
+	}
+	head, tail, n := vals[0], vals[1], vals[2]
+	if hasArg {
+		arg = vals[3]
+	}
+	if n <= 0 || n > 4096 || head < 0 || head >= n || tail < 0 || tail >= n {
+		return "", false
+	}
+	return fmt.Sprintf(ringReplayTmpl, o.Name, method, head, tail, n, arg), true
+}
+
+const ringReplayTmpl = `package kcp
+
+import (
+	"fmt"
+	"testing"
+)
+
+// layout and argument taken from the solver's counterexample for
+// %s
+func TestVerifReplay(t *testing.T) {
+	method, head, tail, n, arg := %q, %d, %d, %d, %d
+	r := &RingBuffer[int]{head: head, tail: tail, elements: make([]int, n)}
+	var model []int
+	for i, k := head, 0; i != tail; i, k = (i+1)%%n, k+1 {
+		r.elements[i] = 100 + k
+		model = append(model, 100+k)
+	}
+	contents := func() []int {
+		var out []int
+		for i := r.head; i != r.tail; i = (i + 1) %% len(r.elements) {
+			out = append(out, r.elements[i])
+		}
+		return out
+	}
+	fail := func(f string, a ...any) {
+		t.Fatalf("REPLAY-REPRODUCED: RingBuffer.%%s on layout head=%%d tail=%%d slots=%%d arg=%%d: %%s", method, head, tail, n, arg, fmt.Sprintf(f, a...))
+	}
+	defer func() {
+		if p := recover(); p != nil {
+			fail("panic: %%v", p)
+		}
+	}()
+	want := append([]int(nil), model...)
+	switch method {
+	case "Len":
+		if g := r.Len(); g != len(model) {
+			fail("Len() = %%d, want %%d", g, len(model))
+		}
+	case "IsEmpty":
+		if g := r.IsEmpty(); g != (len(model) == 0) {
+			fail("IsEmpty() = %%v", g)
+		}
+	case "IsFull":
+		if g := r.IsFull(); g != (len(model) == n-1) {
+			fail("IsFull() = %%v with %%d of %%d slots used", g, len(model), n)
+		}
+	case "Push":
+		r.Push(7)
+		want = append(want, 7)
+	case "Pop":
+		v, ok := r.Pop()
+		if len(model) == 0 {
+			if ok {
+				fail("Pop on an empty ring returned ok")
+			}
+		} else {
+			if !ok || v != model[0] {
+				fail("Pop() = %%d,%%v want %%d", v, ok, model[0])
+			}
+			want = want[1:]
+		}
+	case "Peek":
+		p, ok := r.Peek()
+		if ok != (len(model) > 0) || (ok && *p != model[0]) {
+			fail("Peek() wrong")
+		}
+	case "Discard":
+		k := arg
+		if k < 0 {
+			t.Skip("negative argument is outside the precondition")
+		}
+		if k > len(model) {
+			k = len(model)
+		}
+		if g := r.Discard(arg); g != k {
+			fail("Discard(%%d) = %%d, want %%d", arg, g, k)
+		}
+		want = want[k:]
+	case "Clear":
+		r.Clear()
+		want = nil
+	case "ForEach":
+		var seen []int
+		r.ForEach(func(p *int) bool { seen = append(seen, *p); return true })
+		if fmt.Sprint(seen) != fmt.Sprint(model) {
+			fail("ForEach visited %%v, want %%v", seen, model)
+		}
+	case "ForEachReverse":
+		var seen []int
+		r.ForEachReverse(func(p *int) bool { seen = append(seen, *p); return true })
+		var rev []int
+		for i := len(model) - 1; i >= 0; i-- {
+			rev = append(rev, model[i])
+		}
+		if fmt.Sprint(seen) != fmt.Sprint(rev) {
+			fail("ForEachReverse visited %%v, want %%v", seen, rev)
+		}
+	default:
+		t.Skip("no oracle for " + method)
+	}
+	if got := contents(); fmt.Sprint(got) != fmt.Sprint(want) {
+		fail("contents afterwards %%v, want %%v", got, want)
+	}
+	// vacated slots are zeroed (no stale references)
+	live := map[int]bool{}
+	for i := r.head; i != r.tail; i = (i + 1) %% len(r.elements) {
+		live[i] = true
+	}
+	for i, v := range r.elements {
+		if !live[i] && v != 0 {
+			fail("slot %%d is vacant but still holds %%d", i, v)
+		}
+	}
+}
+`
